@@ -282,7 +282,7 @@ def _pow(ex, args, kw, line):
         import ast
         return ex.binop(ast.Pow(), args[0], args[1], line)
     a, e, m = args
-    if hasattr(m, "F") or hasattr(a, "F"):
+    if (hasattr(m, "F") or hasattr(a, "F")) and not (getattr(m, "name", None) != "p" and getattr(a, "zt", None) is not None):
         # field mode: modulus is the field prime
         F = m.F if hasattr(m, "F") else a.F
         if getattr(m, "name", None) != "p":
@@ -297,6 +297,8 @@ def _pow(ex, args, kw, line):
         if isinstance(e, int) and 0 <= e <= 8:
             return (a ** e) % m
         raise EngineLimit("pow with symbolic exponent in field mode")
+    if hasattr(a, "F"):
+        a = SInt(a.t)           # an atom used as a plain integer on the SMT side
     if all(isinstance(x, int) for x in args):
         try:
             return pow(a, e, m)
